@@ -317,7 +317,7 @@ def stack(ctx, R="R-C15-stack"):
     ctx.check(ok, R, f, nt[0] if nt else MISSING(f.node), "output has T // num_vectors frames of F * num_vectors coefficients", "nT, nF = %s" % (astq.text(nt[0].value) if nt else None))
     tt = [n for n in f.body_nodes() if isinstance(n, ast.Assign) and astq.is_name(n.targets[0], "T") and "nT" in astq.text(n.value)]
     ctx.check(len(tt) == 1 and astq.eq_text(tt[0].value, "nT*self.num_vectors"), R, f, tt[0] if tt else MISSING(f.node),
-              "an incomplete final run is dropped (T := nT * num_vectors)")
+              "an incomplete final run is dropped (T := nT * num_vectors)", structural=True)
     # (the movement of the data itself - 2-D fast path and N-D path alike - is decided by R-C15-stack-layout)
     init = _m(prog, "Stack", "__init__")
     rs = astq.raises_of(init)
